@@ -847,3 +847,45 @@ def r01k(ctx):
                     else:
                         ctx.bad(cid, mod.loc(node), f"`{unparse(node)}` is read after isinstance({subj}, {K.name}), but {lack} re-declare _parameters without `{attr}`: with such a {subj} the optimizer raises ValueError(\"'{attr}' is not in list\") on a query that computes fine un-optimized")
     ctx.floor("parameter reads under isinstance tests", n, 40)
+
+
+# ---------------------------------------------------------------------------------------------
+# R01l
+# ---------------------------------------------------------------------------------------------
+
+
+@rule(
+    "R01l",
+    ["C01", "C10"],
+    """EVERY CONSTRUCTION BY CLASS NAME SUPPLIES THE PARAMETERS THAT HAVE NO DEFAULT: Expr.__new__ stores the operands it is given and
+    fills the rest from `_defaults`; a parameter that is neither passed nor defaulted is simply missing, and the first `self.<p>` /
+    `self.operand('<p>')` raises - at optimization time, on a query that pandas computes. Every `K(...)` in the package (no *args /
+    **kwargs splat) is bound against K._parameters / K._defaults. ShuffleReduce._lower built SortValues without `options`:
+    groupby(sort=True).agg({'x': 'median'}) raised KeyError('options').""",
+)
+def r01l(ctx):
+    model = ctx.model
+    n = 0
+    for mod, cls, fn in model.all_functions():
+        for call in (x for x in ast.walk(fn) if isinstance(x, ast.Call)):
+            try:
+                t = ctor_target(model, mod, cls, call)
+            except Exception:  # noqa: BLE001
+                t = None
+            if t is None or t[1] != "name":
+                continue
+            K = t[0]
+            try:
+                params, dfl = model.parameters(K), model.defaults(K)
+            except Exception:  # noqa: BLE001
+                continue
+            b = bind_call(model, K, call)
+            if b.open_from is not None or b.open_kwargs is not None:
+                continue
+            n += 1
+            missing = [p for p in params if p not in b.args and p not in dfl]
+            if missing:
+                fq = qual(cls, fn) if cls is not None else f"{mod.name.split('.', 1)[-1]}.{fn.name}"
+                ctx.bad(f"{fq}->{K.name}:missing:{','.join(missing)}", mod.loc(call), f"`{unparse(call)[:90]}` builds {K.qual} without {missing}, which have no entry in {K.name}._defaults: the node is created, and the first read of the parameter raises (KeyError / IndexError) inside the optimizer or the graph construction")
+    ctx.ok("constructions-by-name", "", f"{n} constructions bound against their class's _parameters / _defaults")
+    ctx.floor("constructions by class name", n, 300)
